@@ -17,6 +17,6 @@ fuzz_target!(|data: &[u8]| {
     if ranges.is_empty() {
         ranges.push((2, 2, 0, 0));
     }
-    let case = vmatch::c17::SCase { s, ranges };
+    let case = vmatch::c17::SCase { s, ranges, prev: vec![], buf_cap: 0 };
     K.with(|k| judge(&vmatch::c17::C17, &case, k));
 });
